@@ -226,6 +226,9 @@ func genHistory(r *vh.Rng, stream string) (jobctl.History, bool) {
 	s := genSpec(r)
 	h := jobctl.History{Spec: s, Status: jobctl.Status{TscNil: true}}
 	fresh := stream != "stale"
+	if stream == "restart" && r.Chance(1, 8) {
+		h.NoQueue = true
+	}
 	if stream == "midlife" || (stream != "fresh" && r.Chance(1, 2)) {
 		genInitial(r, s, &h)
 	}
@@ -258,10 +261,21 @@ func genHistory(r *vh.Rng, stream string) (jobctl.History, bool) {
 			o = jobctl.Op{Code: 5, Ph: int64(vh.Pick(r, []int{1, 2, 2, 3, 3, 3, 4, 0}))}
 		case x < 90:
 			o = jobctl.Op{Code: 7}
-		case x < 97:
+		case x < 96:
 			o = jobctl.Op{Code: 8}
-		default:
+		case x < 98 || stream != "restart":
 			o = jobctl.Op{Code: 6}
+		default:
+			// controller restart, deliveries in any order; or the job starts terminating
+			if r.Chance(1, 4) {
+				o = jobctl.Op{Code: 12}
+			} else {
+				h.Ops = append(h.Ops, jobctl.Op{Code: 10})
+				for _, c := range vh.Pick(r, [][]int64{{7, 6, 8}, {6, 7, 8}, {7, 8, 6}, {8, 6, 7}}) {
+					h.Ops = append(h.Ops, jobctl.Op{Code: c})
+				}
+				o = jobctl.Op{Code: 1, Req: genReq(r, s, ver, false)}
+			}
 		}
 		h.Ops = append(h.Ops, o)
 		if fresh && o.Code >= 2 && o.Code <= 5 || (fresh && o.Code == 1 && r.Chance(9, 10)) {
@@ -281,7 +295,7 @@ func descHistory(h jobctl.History) any {
 }
 
 func gen(rng *vh.Rng, n int, emit func(id string, sel int, in []int64, kind string, nontrivial bool, desc any)) {
-	streams := []string{"fresh", "midlife", "stale", "faults", "commands", "midlife", "faults"}
+	streams := []string{"fresh", "midlife", "stale", "faults", "commands", "midlife", "faults", "restart"}
 	for i := 0; i < n; i++ {
 		r := rng.Fork()
 		stream := streams[i%len(streams)]
